@@ -445,3 +445,303 @@ impl PanicInfo {
         format!("panic at {}:{} in {}: {}", short_file(&self.file), self.line, self.func, self.message)
     }
 }
+
+// ---------------------------------------------------------------------------------------------
+// Out-of-process shards (DESIGN §3.3): cases that can abort, overflow the stack, exhaust memory or
+// loop run in child processes with rlimits, a CPU-time watchdog and a write-ahead case log.
+//
+// Log protocol (one line each, flushed):  S <idx>\t<case json>   before a case is executed
+//                                         D <idx>\t<class>\t<nontrivial>\t<fp>\t<also,...>   after it
+//                                         K <finding id>          failure matched an open known finding
+//                                         V <sig>\t<what>\t<case json>   shrunk unknown failure
+//                                         B <text>                harness self-check failure
+//                                         E                       shard finished
+
+use std::io::Write;
+
+#[derive(Clone, Copy, Debug)]
+pub struct Limits {
+    pub cpu_s_per_case: u64,
+    pub address_space_bytes: u64,
+    pub wall_s_total: u64,
+}
+
+pub struct ChildArgs {
+    pub shard: usize,
+    pub of: usize,
+    pub resume_after: u64,
+    pub log: String,
+    pub cpu_s_per_case: u64,
+}
+
+pub fn child_args_from(args: &[String]) -> Option<ChildArgs> {
+    let g = |n: &str| args.iter().position(|a| a == n).and_then(|i| args.get(i + 1).cloned());
+    Some(ChildArgs {
+        shard: g("--shard")?.parse().ok()?,
+        of: g("--of")?.parse().ok()?,
+        resume_after: g("--resume").and_then(|x| x.parse().ok()).unwrap_or(0),
+        log: g("--log")?,
+        cpu_s_per_case: g("--cpu").and_then(|x| x.parse().ok()).unwrap_or(20),
+    })
+}
+
+fn process_cpu_ms() -> u64 {
+    unsafe {
+        let mut ru: libc::rusage = std::mem::zeroed();
+        libc::getrusage(libc::RUSAGE_SELF, &mut ru);
+        (ru.ru_utime.tv_sec as u64 + ru.ru_stime.tv_sec as u64) * 1000 + (ru.ru_utime.tv_usec as u64 + ru.ru_stime.tv_usec as u64) / 1000
+    }
+}
+
+static CASE_START_CPU_MS: std::sync::atomic::AtomicU64 = std::sync::atomic::AtomicU64::new(u64::MAX);
+
+fn start_cpu_watchdog(limit_s: u64) {
+    std::thread::spawn(move || loop {
+        std::thread::sleep(std::time::Duration::from_millis(50));
+        let s = CASE_START_CPU_MS.load(Ordering::Relaxed);
+        if s != u64::MAX && process_cpu_ms().saturating_sub(s) > limit_s * 1000 {
+            eprintln!("WATCHDOG: case exceeded {} s of CPU time", limit_s);
+            unsafe { libc::_exit(97) }
+        }
+    });
+}
+
+/// Child side: one shard of a proptest run, single-threaded, with write-ahead logging.
+pub fn pt_run_child<T, S, C>(ctx: &Ctx, label: &str, cases: u64, ca: &ChildArgs, strat: S, check: C)
+where
+    T: Debug + Clone + Serialize,
+    S: Strategy<Value = T>,
+    C: Fn(&T) -> Outcome,
+{
+    let file = std::fs::OpenOptions::new().create(true).append(true).open(&ca.log).expect("open shard log");
+    let log = RefCell::new(std::io::BufWriter::new(file));
+    let wl = |s: String| {
+        let mut l = log.borrow_mut();
+        let _ = l.write_all(s.as_bytes());
+        let _ = l.write_all(b"\n");
+        let _ = l.flush();
+    };
+    start_cpu_watchdog(ca.cpu_s_per_case);
+    let per = (cases + ca.of as u64 - 1) / ca.of as u64;
+    let seed = mix(mix(ctx.seed, fp(&label)), ca.shard as u64);
+    let cfg = Config {
+        cases: per as u32,
+        rng_seed: RngSeed::Fixed(seed),
+        failure_persistence: None,
+        max_shrink_iters: 600,
+        max_global_rejects: 1 << 20,
+        ..Config::default()
+    };
+    let mut runner = TestRunner::new(cfg);
+    let failed = AtomicBool::new(false);
+    let idx = std::cell::Cell::new(0u64);
+    let res = runner.run(&strat, |v| {
+        let i = idx.get();
+        idx.set(i + 1);
+        let shrinking = failed.load(Ordering::Relaxed);
+        if !shrinking && i < ca.resume_after {
+            return Ok(()); // already executed by a previous incarnation of this shard
+        }
+        let cj = serde_json::to_string(&v).unwrap_or_default();
+        if !shrinking {
+            wl(format!("S {}\t{}", i, cj));
+        } else {
+            wl(format!("S shrink\t{}", cj));
+        }
+        CASE_START_CPU_MS.store(process_cpu_ms(), Ordering::Relaxed);
+        let o = check(&v);
+        CASE_START_CPU_MS.store(u64::MAX, Ordering::Relaxed);
+        if !shrinking {
+            wl(format!("D {}\t{}\t{}\t{}\t{}", i, o.class, o.nontrivial as u8, o.fingerprint, o.also.join(",")));
+        }
+        if let Some(f) = &o.fail {
+            if let Some(k) = ctx.known_open(&f.signature) {
+                if !shrinking {
+                    wl(format!("K {}", k.id));
+                }
+                return Ok(());
+            }
+            if std::env::var("VERIF_EXPLORE").is_ok() {
+                wl(format!("X {}\t{}", f.signature, f.what.replace(['\t', '\n'], " ")));
+                return Ok(());
+            }
+            failed.store(true, Ordering::Relaxed);
+            return Err(TestCaseError::fail(f.signature.clone()));
+        }
+        Ok(())
+    });
+    match res {
+        Ok(()) => {}
+        Err(TestError::Fail(_, minimal)) => {
+            let o = check(&minimal);
+            let f = o.fail.unwrap_or(Fail { signature: format!("{}:unstable", label), what: "failure did not reproduce on the shrunk case".into() });
+            wl(format!("V {}\t{}\t{}", f.signature, f.what.replace(['\t', '\n'], " "), json!({"label": label, "case": serde_json::to_value(&minimal).unwrap_or(Value::Null)})));
+        }
+        Err(TestError::Abort(r)) => wl(format!("B {}: proptest aborted: {}", label, r)),
+    }
+    wl("E".to_string());
+}
+
+/// Parent side: run `n_shards` child processes (at most ctx.threads at a time), restart a shard after
+/// a crash (resuming behind the crashing case), rebuild the Report from the logs.
+pub fn run_children(ctx: &Ctx, label: &str, n_shards: usize, limits: Limits, rep: &mut Report) {
+    use std::os::unix::process::CommandExt;
+    use std::process::{Command, Stdio};
+    let exe = std::env::current_exe().expect("current exe");
+    let dir = std::env::var("VERIF_DIR").unwrap_or_else(|_| "/verif".into());
+    let tmp = format!("{}/target/shards", dir);
+    let _ = std::fs::create_dir_all(&tmp);
+    let known_path = format!("{}/known_findings.json", dir);
+    let t0 = std::time::Instant::now();
+    par_for(
+        ctx,
+        n_shards,
+        |shard, r| {
+            let log = format!("{}/{}-{}-{}-{}.log", tmp, ctx.prop, label, std::process::id(), shard);
+            let _ = std::fs::remove_file(&log);
+            let mut resume = 0u64;
+            let mut crashes = 0;
+            loop {
+                let mut cmd = Command::new(&exe);
+                cmd.args(["child", &ctx.prop, "--tier", if ctx.quick() { "quick" } else { "thorough" }, "--seed", &ctx.seed.to_string(), "--build", &ctx.build, "--known", &known_path, "--label", label])
+                    .args(["--shard", &shard.to_string(), "--of", &n_shards.to_string(), "--resume", &resume.to_string(), "--log", &log, "--cpu", &limits.cpu_s_per_case.to_string()])
+                    .env_remove("RUST_MIN_STACK")
+                    .stdout(Stdio::null())
+                    .stderr(Stdio::piped());
+                let as_limit = limits.address_space_bytes;
+                unsafe {
+                    cmd.pre_exec(move || {
+                        let lim = libc::rlimit { rlim_cur: as_limit, rlim_max: as_limit };
+                        libc::setrlimit(libc::RLIMIT_AS, &lim);
+                        let core = libc::rlimit { rlim_cur: 0, rlim_max: 0 };
+                        libc::setrlimit(libc::RLIMIT_CORE, &core);
+                        Ok(())
+                    });
+                }
+                let out = match cmd.spawn().and_then(|c| c.wait_with_output()) {
+                    Ok(o) => o,
+                    Err(e) => {
+                        r.broken.push(format!("cannot spawn shard: {}", e));
+                        break;
+                    }
+                };
+                // parse the log written so far
+                let text = std::fs::read_to_string(&log).unwrap_or_default();
+                let mut last_started: Option<(u64, String)> = None;
+                let mut finished = false;
+                for line in text.lines() {
+                    if let Some(x) = line.strip_prefix("S ") {
+                        if let Some((i, c)) = x.split_once('\t') {
+                            if let Ok(i) = i.parse::<u64>() {
+                                last_started = Some((i, c.to_string()));
+                            } else {
+                                last_started = Some((u64::MAX, c.to_string()));
+                            }
+                        }
+                    } else if line.starts_with("D ") {
+                        if let Some((i, _)) = line[2..].split_once('\t') {
+                            if last_started.as_ref().map(|s| s.0.to_string()) == Some(i.to_string()) {
+                                last_started = None;
+                            }
+                        }
+                    } else if line == "E" {
+                        finished = true;
+                    }
+                }
+                if finished && out.status.success() {
+                    break;
+                }
+                // the shard died: the last started, unfinished case is the reproducer
+                let stderr = String::from_utf8_lossy(&out.stderr);
+                use std::os::unix::process::ExitStatusExt;
+                let how = if out.status.code() == Some(97) {
+                    "cpu_time_limit".to_string()
+                } else if stderr.contains("memory allocation of") {
+                    "memory_exhausted".to_string()
+                } else if stderr.contains("has overflowed its stack") {
+                    "stack_overflow".to_string()
+                } else if let Some(sig) = out.status.signal() {
+                    format!("signal{}", sig)
+                } else {
+                    format!("exit{}", out.status.code().unwrap_or(-1))
+                };
+                match last_started {
+                    Some((i, case)) => {
+                        let cv: Value = serde_json::from_str(&case).unwrap_or(Value::Null);
+                        let detail = crash_detail(&cv);
+                        let f = Fail { signature: format!("crash:{}:{}", how, detail), what: format!("verifier process died ({}) on case {}; stderr tail: {}", how, case.chars().take(300).collect::<String>(), stderr.chars().rev().take(200).collect::<String>().chars().rev().collect::<String>().replace('\n', " ")) };
+                        r.evaluations += 1;
+                        r.class(&format!("crash/{}", how));
+                        r.fail(ctx, &f, || json!({"label": label, "case": cv}));
+                        if i == u64::MAX {
+                            // died while shrinking: give up on this shard
+                            break;
+                        }
+                        resume = i + 1;
+                    }
+                    None => {
+                        r.broken.push(format!("shard {} died ({}) outside any case: {}", shard, how, stderr.chars().take(300).collect::<String>()));
+                        break;
+                    }
+                }
+                crashes += 1;
+                if crashes > 25 || t0.elapsed().as_secs() > limits.wall_s_total {
+                    r.notes.push(format!("shard {} abandoned after {} crashes", shard, crashes));
+                    break;
+                }
+            }
+            // rebuild the report from the log
+            let text = std::fs::read_to_string(&log).unwrap_or_default();
+            let mut started: std::collections::HashMap<String, String> = std::collections::HashMap::new();
+            for line in text.lines() {
+                if let Some(x) = line.strip_prefix("S ") {
+                    if let Some((i, c)) = x.split_once('\t') {
+                        started.insert(i.to_string(), c.to_string());
+                    }
+                } else if let Some(x) = line.strip_prefix("D ") {
+                    let p: Vec<&str> = x.split('\t').collect();
+                    if p.len() >= 4 {
+                        r.evaluations += 1;
+                        r.class(p[1]);
+                        if let Some(a) = p.get(4) {
+                            for c in a.split(',').filter(|c| !c.is_empty()) {
+                                r.class(c);
+                            }
+                        }
+                        if p[2] == "1" {
+                            r.nontrivial.insert(p[3].parse().unwrap_or(0));
+                            let cls = p[1].to_string();
+                            if let Some(c) = started.get(p[0]) {
+                                let cj = c.clone();
+                                r.sample(&cls, || serde_json::from_str(&cj).unwrap_or(Value::Null));
+                            }
+                        }
+                    }
+                } else if let Some(x) = line.strip_prefix("K ") {
+                    *r.known_hits.entry(x.to_string()).or_insert(0) += 1;
+                } else if let Some(x) = line.strip_prefix("V ") {
+                    let p: Vec<&str> = x.splitn(3, '\t').collect();
+                    if p.len() == 3 {
+                        let f = Fail { signature: p[0].to_string(), what: p[1].to_string() };
+                        let cv: Value = serde_json::from_str(p[2]).unwrap_or(Value::Null);
+                        r.fail(ctx, &f, || cv);
+                    }
+                } else if let Some(x) = line.strip_prefix("B ") {
+                    r.broken.push(x.to_string());
+                } else if let Some(x) = line.strip_prefix("X ") {
+                    let (sig, what) = x.split_once('\t').unwrap_or((x, ""));
+                    let e = r.extra.entry(format!("explore:{}", sig)).or_insert(json!({"n": 0, "what": what}));
+                    e["n"] = json!(e["n"].as_u64().unwrap_or(0) + 1);
+                }
+            }
+            let _ = std::fs::remove_file(&log);
+        },
+        rep,
+    );
+}
+
+/// short, stable description of a crashing case for its signature (set by the property through the
+/// "sig" key of the case when it wants crash findings keyed more finely than by signal)
+fn crash_detail(case: &Value) -> String {
+    case.get("sig").and_then(|s| s.as_str()).unwrap_or("case").to_string()
+}
